@@ -382,6 +382,11 @@ func accumulate(out *WorkerOut, sc *Scenario, res *RunResult, tr *Truth) {
 	if res.LoadErr != "" {
 		st["load_errors"]++
 	}
+	for _, p := range projProcs(sc) {
+		if sc.Project != nil && (p.LogLocation == "/dev/full" || strings.HasPrefix(p.LogLocation, "blocker/")) {
+			st["F15_log_file_unusable"]++
+		}
+	}
 	if tr == nil {
 		return
 	}
@@ -592,4 +597,11 @@ func TestShow(t *testing.T) {
 	for _, v := range cross {
 		fmt.Println("CROSS", v.Key(), v.Msg)
 	}
+}
+
+func projProcs(sc *Scenario) []*ProcSpec {
+	if sc.Project == nil {
+		return nil
+	}
+	return sc.Project.Procs
 }
